@@ -522,8 +522,11 @@ def finish(ctx, level, coverage, assumptions, failures, replay_family=None):
         "wall_s": round(time.time() - ctx.t0, 1),
         "violations": len(unknown),
     }
-    os.makedirs(EVIDENCE, exist_ok=True)
-    with open(os.path.join(EVIDENCE, "%s.json" % ctx.prop), "w") as f:
+    # evidence describes runs against /repo itself, never against a scratch copy (bin/mutants -j); there the file goes to the
+    # scratch directory of the run and disappears with it
+    evdir = EVIDENCE if REPO == "/repo" else ctx.work
+    os.makedirs(evdir, exist_ok=True)
+    with open(os.path.join(evdir, "%s.json" % ctx.prop), "w") as f:
         json.dump(ev, f, indent=1, sort_keys=True)
         f.write("\n")
     log("[done] property=%s tier=%s seed=%d violations=%d known=%d wall=%.1fs" % (
